@@ -34,8 +34,9 @@ COND_MAX = 30.0
 RULE = ("Cases: n uniform in 1..6, m = n + extra, extra in {0, 1, 2, n, 2n} (m >= n: 'well-conditioned' read as full column "
         "rank with cond(A) log-uniform in [1, 30]); A = U diag(s) V', largest singular value log-uniform in [0.3, 10]; "
         "b = A xtrue + noise with xtrue having random exact zeros; regulariser L1 (lam*||x||_1, lh = lam*sqrt(n), prox = soft "
-        "threshold) or L2 (lam*||x||_2, lh = lam, prox = block soft threshold), lam log-uniform in [1e-3, 10] times a "
-        "problem scale in {1, |A'b|_inf} (so that both 'no component zero' and 'all components zero' occur); x0 = "
+        "threshold) or L2 (lam*||x||_2, lh = lam, prox = block soft threshold), lam in [1e-3, 10]: log-uniform, or a "
+        "fraction 1e-2..1.6 of lam_max (smallest lam whose unconstrained minimiser is 0) clipped to [1e-3, 10], so that "
+        "'no component zero', 'some zero' and 'all zero' all occur; x0 = "
         "xtrue + dist*direction with dist log-uniform in [1e-2, 30], or x0 = 0; bounds kind in {none, around (box strictly "
         "contains the regularised minimiser and x0), excluding (some bounds active at the regularised minimiser), "
         "x0_outside}; box widths >= 2.5*default rhobeg; calling convention in {closure: argsh=argsprox=(), args: "
@@ -317,7 +318,10 @@ def gen_case(rng):
     reg = 'L1' if rng.integers(0, 2) else 'L2'
     lam = float(10.0 ** rng.uniform(-3.0, 1.0))
     if rng.integers(0, 2):
-        lam *= float(max(np.max(np.abs(A.T @ b)), 1e-3))
+        # a fraction of lam_max (the smallest lam for which the unconstrained minimiser is 0), kept inside [1e-3, 10]
+        Atb = A.T @ b
+        lam_max = 2.0 * float(np.max(np.abs(Atb)) if reg == 'L1' else np.linalg.norm(Atb))
+        lam = float(min(10.0, max(1e-3, lam_max * 10.0 ** rng.uniform(-2.0, 0.2))))
     if rng.integers(0, 5) == 0:
         x0 = np.zeros(n)
     else:
